@@ -136,8 +136,6 @@ def main():
             continue
         if r.completed == 0:
             vacuity_errors.append('%s: no path reaches an exit (contradictory precondition?)' % r.key)
-        if not r.canaries:
-            vacuity_errors.append('%s: no canary generated' % r.key)
         if r.canaries and all(cn.verdict == 'unsat' for cn in r.canaries) and not any(o.verdict == 'sat' for o in r.obligations):
             vacuity_errors.append('%s: `false` is provable at every sampled exit: assumptions are inconsistent' % r.key)
     if not obls:
